@@ -1,153 +1,29 @@
-//! Drop-in replacements for the `std::sync` items rsass uses, routed through
-//! shuttle so that a seeded scheduler decides every lock acquisition, every
-//! `Once` and every lazy-static initialisation.  Only compiled into rsass
-//! under `--cfg kaj_rsass_verif` (see the hook commit in /repo).
+//! What the instrumented copy of rsass (tools/instrument.py) uses in place of
+//! `std::sync`, `std::thread`, `std::thread_local!` and `std::time`.
 //!
-//! This lives outside rsass because rsass forbids `unsafe` and the `LazyLock`
-//! wrapper needs one lifetime extension (sound because every `LazyLock` in
-//! rsass is a `static`).
+//! * without the `shuttle` feature (world A): the std items themselves, so the
+//!   instrumented build behaves exactly like the shipped one — except for the
+//!   clock, which the harness may replace by a simulated one (`time::sim`);
+//! * with the `shuttle` feature (world B): shuttle's models, so that a seeded
+//!   scheduler decides every lock acquisition, atomic access, `Once`,
+//!   lazy-static initialisation and thread-local access of rsass.
+//!
+//! This lives outside rsass because rsass forbids `unsafe`.
 
-use std::ops::Deref;
-
-pub use shuttle::sync::Once;
-/// shuttle's `Arc` is std's `Arc` (no scheduling points), so use std's directly.
-pub use std::sync::Arc;
-pub use std::sync::{LockResult, PoisonError};
-
-/// Trace of lock acquisitions, for the interleaving signature.
-pub mod trace {
-    use std::sync::Mutex as StdMutex;
-
-    #[derive(Clone, Copy, Debug, PartialEq, Eq, Hash, PartialOrd, Ord)]
-    pub struct Acq {
-        /// shuttle task id (usize::MAX outside shuttle)
-        pub task: usize,
-        /// identity of the mutex: rank of its first acquisition within the execution
-        pub lock: usize,
-    }
-
-    static TRACE: StdMutex<Vec<Acq>> = StdMutex::new(Vec::new());
-    static ENABLED: std::sync::atomic::AtomicBool = std::sync::atomic::AtomicBool::new(false);
-    /// Lock identities are handed out in order of first acquisition within an
-    /// execution (addresses are reused by the allocator and differ between
-    /// processes, so they cannot serve as identities).
-    static NEXT_ID: std::sync::atomic::AtomicUsize = std::sync::atomic::AtomicUsize::new(1);
-    static EPOCH: std::sync::atomic::AtomicUsize = std::sync::atomic::AtomicUsize::new(1);
-
-    pub fn enable(on: bool) {
-        if on {
-            // new execution: identities start again (old mutexes keep stale ids of an older epoch)
-            NEXT_ID.store(1, std::sync::atomic::Ordering::Relaxed);
-            EPOCH.fetch_add(1, std::sync::atomic::Ordering::Relaxed);
-        }
-        ENABLED.store(on, std::sync::atomic::Ordering::Relaxed);
-    }
-    pub(crate) fn enabled() -> bool {
-        ENABLED.load(std::sync::atomic::Ordering::Relaxed)
-    }
-    pub(crate) fn epoch() -> usize {
-        EPOCH.load(std::sync::atomic::Ordering::Relaxed)
-    }
-    pub(crate) fn fresh_id() -> usize {
-        NEXT_ID.fetch_add(1, std::sync::atomic::Ordering::Relaxed)
-    }
-    pub(crate) fn record(lock: usize) {
-        if !ENABLED.load(std::sync::atomic::Ordering::Relaxed) {
-            return;
-        }
-        let task = shuttle::current::get_current_task().map_or(usize::MAX, usize::from);
-        // never held across a scheduling point
-        TRACE.lock().unwrap_or_else(|e| e.into_inner()).push(Acq { task, lock });
-    }
-    static LAZY: StdMutex<Vec<(usize, usize)>> = StdMutex::new(Vec::new());
-    /// A task found a lazy static not yet initialised (in this execution) and goes on to initialise it.
-    pub(crate) fn lazy_attempt(lazy: usize) {
-        if !enabled() {
-            return;
-        }
-        let task = shuttle::current::get_current_task().map_or(usize::MAX, usize::from);
-        LAZY.lock().unwrap_or_else(|e| e.into_inner()).push((lazy, task));
-    }
-    /// Number of lazy statics whose initialisation was attempted by more than one task.
-    pub fn take_contended_lazies() -> usize {
-        let v = std::mem::take(&mut *LAZY.lock().unwrap_or_else(|e| e.into_inner()));
-        let mut by: std::collections::BTreeMap<usize, Vec<usize>> = std::collections::BTreeMap::new();
-        for (l, t) in v {
-            let e = by.entry(l).or_default();
-            if !e.contains(&t) {
-                e.push(t);
-            }
-        }
-        by.values().filter(|t| t.len() > 1).count()
-    }
-    /// Take the trace recorded since the last call.
-    pub fn take() -> Vec<Acq> {
-        std::mem::take(&mut *TRACE.lock().unwrap_or_else(|e| e.into_inner()))
+#[cfg(not(feature = "shuttle"))]
+mod plain {
+    pub use std::sync::*;
+    pub use std::thread_local;
+    pub mod thread {
+        pub use std::thread::*;
     }
 }
+#[cfg(not(feature = "shuttle"))]
+pub use plain::*;
 
-/// `std::sync::Mutex` look-alike over `shuttle::sync::Mutex`.
-#[derive(Debug, Default)]
-pub struct Mutex<T: ?Sized> {
-    /// (epoch << 32 | id), 0 = not yet acquired
-    ident: std::sync::atomic::AtomicUsize,
-    inner: shuttle::sync::Mutex<T>,
-}
+#[cfg(feature = "shuttle")]
+mod sim;
+#[cfg(feature = "shuttle")]
+pub use sim::*;
 
-pub type MutexGuard<'a, T> = shuttle::sync::MutexGuard<'a, T>;
-
-impl<T> Mutex<T> {
-    pub const fn new(t: T) -> Self {
-        Mutex { ident: std::sync::atomic::AtomicUsize::new(0), inner: shuttle::sync::Mutex::new(t) }
-    }
-}
-
-impl<T: ?Sized> Mutex<T> {
-    pub fn lock(&self) -> LockResult<MutexGuard<'_, T>> {
-        if trace::enabled() {
-            use std::sync::atomic::Ordering::Relaxed;
-            let ep = trace::epoch();
-            let mut v = self.ident.load(Relaxed);
-            if v >> 32 != ep {
-                v = (ep << 32) | trace::fresh_id();
-                self.ident.store(v, Relaxed);
-            }
-            trace::record(v & 0xffff_ffff);
-        }
-        self.inner.lock()
-    }
-}
-
-/// `std::sync::LazyLock` look-alike over shuttle's lazy static: the value is
-/// per shuttle execution (= per simulated process) and the race for who
-/// initialises it is part of the schedule.
-pub struct LazyLock<T: Sync + 'static> {
-    lazy: shuttle::lazy_static::Lazy<T>,
-    /// epoch in which a `deref` has completed (only for the contention probe)
-    done_epoch: std::sync::atomic::AtomicUsize,
-}
-
-impl<T: Sync + 'static> LazyLock<T> {
-    pub const fn new(f: fn() -> T) -> Self {
-        LazyLock { lazy: shuttle::lazy_static::Lazy::new(f), done_epoch: std::sync::atomic::AtomicUsize::new(0) }
-    }
-}
-
-impl<T: Sync + 'static> Deref for LazyLock<T> {
-    type Target = T;
-    fn deref(&self) -> &T {
-        // SAFETY: every LazyLock in rsass is a `static` item, so `self` does
-        // live for 'static; std's LazyLock::deref has no such bound, hence
-        // the extension here.
-        let this: &'static Self = unsafe { &*std::ptr::from_ref(self) };
-        use std::sync::atomic::Ordering::Relaxed;
-        let ep = trace::epoch();
-        if this.done_epoch.load(Relaxed) != ep {
-            trace::lazy_attempt(std::ptr::from_ref(this).cast::<()>() as usize);
-            let v = this.lazy.get();
-            this.done_epoch.store(ep, Relaxed);
-            return v;
-        }
-        this.lazy.get()
-    }
-}
+pub mod time;
